@@ -465,6 +465,32 @@ func (s *SCCP) lookupBinding(m map[string]AVal, fn *ssa.Function, key string) (A
 	return v, ok
 }
 
+// phiBinding: a merge/loop variable can be bound by its source name, by the type path of one of its
+// incoming values ("init:fat2.TypedAddressAmountTuple.Amount") or by its named type ("type:fat2.PTicker").
+func (s *SCCP) phiBinding(fn *ssa.Function, x *ssa.Phi) (AVal, bool) {
+	if len(s.sc.Phis) == 0 {
+		return bot, false
+	}
+	if x.Comment != "" {
+		if b, ok := s.lookupBinding(s.sc.Phis, fn, x.Comment); ok {
+			return b, true
+		}
+	}
+	for _, e := range x.Edges {
+		if tp := typePath(e); tp != "" {
+			if b, ok := s.lookupBinding(s.sc.Phis, fn, "init:"+tp); ok {
+				return b, true
+			}
+		}
+	}
+	if tn := namedShort(x.Type()); tn != "" {
+		if b, ok := s.lookupBinding(s.sc.Phis, fn, "type:"+tn); ok {
+			return b, true
+		}
+	}
+	return bot, false
+}
+
 // bindingFor tries the variable-name path first and the type-qualified path second
 // ("fat2.Transaction.Conversion"): the latter survives renaming of locals.
 func (s *SCCP) bindingFor(m map[string]AVal, fn *ssa.Function, v ssa.Value) (AVal, bool) {
@@ -479,6 +505,11 @@ func (s *SCCP) bindingFor(m map[string]AVal, fn *ssa.Function, v ssa.Value) (AVa
 	if p := typePath(v); p != "" {
 		if b, ok := s.lookupBinding(m, fn, p); ok {
 			return b, true
+		}
+		if i := strings.LastIndex(p, "["); i > 0 {
+			if b, ok := s.lookupBinding(m, fn, p[i:]); ok {
+				return b, true
+			}
 		}
 	}
 	return bot, false
@@ -525,6 +556,9 @@ func typePath(v ssa.Value) string {
 		k := typePath(x.Index)
 		if m != "" && k != "" {
 			return m + "[" + k + "]"
+		}
+		if k != "" {
+			return "[" + k + "]" // map without a name (local make): keyed by the key's type path only
 		}
 	case *ssa.Extract:
 		if lk, ok := x.Tuple.(*ssa.Lookup); ok && x.Index == 0 {
@@ -614,7 +648,7 @@ func (s *SCCP) run(fn *ssa.Function, args []AVal, depth int) *fnState {
 			for _, ins := range b.Instrs {
 				switch x := ins.(type) {
 				case *ssa.Phi:
-					if pb, ok := s.lookupBinding(s.sc.Phis, fn, x.Comment); ok && x.Comment != "" {
+					if pb, ok := s.phiBinding(fn, x); ok {
 						if set(x, pb) {
 							changed = true
 						}
